@@ -3,8 +3,9 @@
 #  existing tests pass with it, the demonstration passes without it and fails with it, then run our check on it.
 cd "$(dirname "$0")"; . ./env.sh
 ID=$1; TIER=${2:-quick}
-SRC=/tmp/seed/out/$ID; [ -d seeded/$ID ] && [ ! -d $SRC ] && SRC=$PWD/seeded/$ID
-[ -f seeded/$ID/patch.diff ] && SRC=$PWD/seeded/$ID
+# source: $SEED_SRC/<ID> if given, else seeded/<ID> (ID may carry a suffix like C01-2; the property is the part before '-')
+SRC=$PWD/seeded/$ID; [ -n "$SEED_SRC" ] && SRC=$SEED_SRC/$ID
+PROP=${ID%%-*}
 D=$(mktemp -d /tmp/vseed.XXXXXX); trap 'rm -rf "$D"; rm -rf "$VERIF_ROOT/.build/$(echo -n "$D/repo" | md5sum | cut -c1-8)"' EXIT
 mkdir -p $D/repo; (cd /repo && git ls-files -z | xargs -0 cp --parents -t $D/repo)
 DEMO=$(ls $SRC/*_test.go 2>/dev/null | head -1)
@@ -25,4 +26,4 @@ git apply $SRC/patch.diff
 rm -f $D/repo/$DIR/$(basename $DEMO)
 fi
 cd $VERIF_ROOT
-echo "== our check"; VERIF_REPO=$D/repo ./check.sh $ID $TIER 2>&1 | grep -E "VIOLATION|KNOWN|violations=|error|^  " | head -8
+echo "== our check"; VERIF_REPO=$D/repo ./check.sh $PROP $TIER 2>&1 | grep -E "VIOLATION|KNOWN|violations=|error|^  " | head -8
